@@ -290,3 +290,70 @@ func VerifH11() {
 		vAssert("following-startup-is-the-session", len(seenUsers) == 1 && string(seenUsers[0]) == "x")
 	}
 }
+
+// ---------------------------------------------------------------------------
+// H11d — "the TLS session otherwise behaves exactly like its plaintext
+// equivalent" as a differential (C11): one session — a startup packet, one
+// message of symbolic type with up to N symbolic body bytes (declared length
+// correct, too small, or beyond the limit), a simple query, Terminate — is
+// served once in plaintext and once inside TLS by two servers with the same
+// configuration. Transcripts (ParameterStatus as a set) and callback traces
+// must be equal, and the raw side of the TLS run carries nothing but 'S' and
+// TLS records.
+// ---------------------------------------------------------------------------
+func VerifH11d() {
+	N := vParam("N", 3)
+	typ := nondetByte()
+	if N >= 4 {
+		// (a complete Parse carries a 16-bit count that drives an empty loop:
+		// 65536 ways to do nothing; Parse is covered by the bound N=3)
+		vAssume(typ != 'P')
+	}
+	body := nondetBytes(vChoose(N + 1))
+	msg := vMsgBytes(typ, body)
+	switch vChoose(3) {
+	case 1:
+		msg[4] = byte(vChoose(4)) // declared length below the minimum
+	case 2:
+		msg = vMsgBytes(typ, make([]byte, 65+vChoose(2))) // beyond the limit of 64
+		vReach("oversized-inside")
+	}
+	session := vCat(vStartup(vKV([]byte("user"), []byte("u"))), msg, vMsgBytes('Q', vCStr([]byte("q"))), vMsgBytes('X', nil))
+	type run struct {
+		w     *vWorld
+		srv   *Server
+		users [][]byte
+	}
+	mk := func(withTLS bool) *run {
+		r := &run{w: &vWorld{parseMenu: -2, execMenu: 1}}
+		opts := []OptionFn{MessageBufferSize(64), SessionMiddleware(func(ctx context.Context) (context.Context, error) {
+			r.users = append(r.users, []byte(ClientParameters(ctx)[ParamUsername]))
+			return ctx, nil
+		})}
+		if withTLS {
+			opts = append(opts, TLSConfig(&tls.Config{Certificates: []tls.Certificate{{}}}))
+		}
+		srv, err := NewServer(r.w.parse, opts...)
+		vAssert("newserver-ok", err == nil)
+		r.srv = srv
+		return r
+	}
+	plain, secure := mk(false), mk(true)
+	pc := vNewConn(session)
+	plain.srv.serve(context.Background(), pc) //nolint
+	tr := vServeTLS(secure.srv, vSSLRequest, session)
+	vAssert("ssl-accepted-with-single-S", len(tr.rawOut) >= 1 && tr.rawOut[0] == 'S')
+	vAssert("nothing-but-TLS-after-S", vOnlyTLSRecords(tr.rawOut[1:]))
+	vAssert("same-transcript-as-plaintext", vSameTranscript(tr.innerOut, pc.out))
+	vAssert("same-middleware-calls", len(plain.users) == len(secure.users))
+	vAssert("same-callback-trace", len(plain.w.events) == len(secure.w.events))
+	for i := range plain.w.events {
+		if i < len(secure.w.events) {
+			a, b := plain.w.events[i], secure.w.events[i]
+			vAssert("same-callback-kind-and-text", a.kind == b.kind && vEqBytes(a.query, b.query))
+		}
+	}
+	if vCount(vTypes(pc.out), 'C') >= 1 {
+		vReach("query-served-in-both")
+	}
+}
